@@ -297,9 +297,10 @@ func (*Ufs) Walk(req *SrvReq) {
 	fid := req.Fid.Aux.(*ufsFid)
 	tc := req.Tc
 
-	err := fid.stat()
-	if err != nil {
-		req.RespondError(err)
+	// any number of walks may start from one fid at the same time:
+	// check that the file is there without storing into the shared fid
+	if _, e := os.Lstat(fid.path); e != nil {
+		req.RespondError(toError(e))
 		return
 	}
 
